@@ -229,7 +229,7 @@ def instantiate(matcher):
     text, n = re.subn(r"\$\(\s*\$\w+\s*:\s*ident\s*:\s*\$\w+\s*:\s*ty\s*\)\s*,\s*\*", PARAMS, text)
     if n != 1:
         return None, "no `$($name:ident: $ty:ty),*` parameter list"
-    text, n = re.subn(r"\$\(\s*\$\w+\s*:\s*tt\s*\)\s*\*", "ASSIGN_SEQ.store(tick(), SeqCst); ASSIGN_EVALS.fetch_add(1, SeqCst); *out = a + ASSIGN_K.load(SeqCst); let a = a.wrapping_add(777_000); let _ = a;", text)
+    text, n = re.subn(r"\$\(\s*\$\w+\s*:\s*tt\s*\)\s*\*", "dly(); ASSIGN_SEQ.store(tick(), SeqCst); ASSIGN_EVALS.fetch_add(1, SeqCst); *out = a + ASSIGN_K.load(SeqCst); let a = a.wrapping_add(777_000); let _ = a;", text)
     opts["assign"] = n > 0
 
     def sub_frag(mo):
@@ -238,10 +238,10 @@ def instantiate(matcher):
             return "i64"
         if frag == "expr" and "cond" in nm:
             opts["when"] = True
-            return "{ COND_EVALS.fetch_add(1, SeqCst); a >= WHEN_MIN.load(SeqCst) }"
+            return "{ dly(); COND_EVALS.fetch_add(1, SeqCst); a >= WHEN_MIN.load(SeqCst) }"
         if frag == "expr" and "ret" in nm:
             opts["returns"] = True
-            return "{ RET_SEQ.store(tick(), SeqCst); RET_EVALS.fetch_add(1, SeqCst); a * 2 + RET_K.load(SeqCst) }"
+            return "{ dly(); RET_SEQ.store(tick(), SeqCst); RET_EVALS.fetch_add(1, SeqCst); a * 2 + RET_K.load(SeqCst) }"
         if frag == "expr" and "expected" in nm:
             opts["times"] = True
             return "TIMES.load(SeqCst)"
@@ -285,7 +285,10 @@ static ASSIGN_EVALS: AtomicU64 = AtomicU64::new(0);
 static ORIG_RUNS: AtomicU64 = AtomicU64::new(0);
 static BASE_ASSIGN: AtomicU64 = AtomicU64::new(0);
 static BASE_RET: AtomicU64 = AtomicU64::new(0);
+static DELAY_US: AtomicU64 = AtomicU64::new(0);
 fn tick() -> u64 {{ TICK.fetch_add(1, SeqCst) }}
+// widens the window inside the fake while several threads call it at once (concurrent blocks only)
+fn dly() {{ let us = DELAY_US.load(SeqCst); if us > 0 {{ std::thread::sleep(std::time::Duration::from_micros(us)); }} }}
 
 #[inline(never)]
 {quals} fn orig(a: i64, out: &mut i64){ret_decl} {{
@@ -333,6 +336,39 @@ fn main() {{
         println!("INSTALLED");
         loop {{
             let line = match lines.next() {{ Some(Ok(l)) => l, _ => break }};
+            if line.starts_with("T ") {{
+                // "T <threads> <k> <delay_us>": k matching calls split over the threads, released together
+                let p: Vec<u64> = line[2..].split_whitespace().filter_map(|x| x.parse().ok()).collect();
+                let (nt, k, us) = (p[0].max(1) as usize, p[1] as usize, p[2]);
+                WHEN_MIN.store(0, SeqCst);
+                ASSIGN_K.store(1, SeqCst);
+                RET_K.store(1, SeqCst);
+                DELAY_US.store(us, SeqCst);
+                let barrier = std::sync::Barrier::new(nt);
+                let (mut ok, mut bad) = (0usize, 0usize);
+                std::thread::scope(|s| {{
+                    let hs: Vec<_> = (0..nt).map(|t| {{
+                        let barrier = &barrier;
+                        s.spawn(move || {{
+                            barrier.wait();
+                            let (mut ok, mut bad) = (0usize, 0usize);
+                            let mut i = t;
+                            while i < k {{
+                                let a: i64 = 5 + i as i64;
+                                let mut out: i64 = -99;
+                                let r = std::panic::catch_unwind(std::panic::AssertUnwindSafe(|| {{ {call_expr} }}));
+                                if r.is_ok() {{ ok += 1 }} else {{ bad += 1 }}
+                                i += nt;
+                            }}
+                            (ok, bad)
+                        }})
+                    }}).collect();
+                    for h in hs {{ let (o, b) = h.join().unwrap_or((0, 0)); ok += o; bad += b; }}
+                }});
+                DELAY_US.store(0, SeqCst);
+                println!("CONC ok={{ok}} panic={{bad}}");
+                continue;
+            }}
             let v: Vec<i64> = line.split_whitespace().filter_map(|x| x.parse().ok()).collect();
             if v.len() < 4 {{ break; }}
             let (a, when_min, assign_k, ret_k) = (v[0], v[1], v[2], v[3]);
@@ -458,6 +494,43 @@ def run_arm(exe, times, calls, timeout=20, more_blocks=()):
         inp += f"{t}\n" + "".join(f"{a} {w} {k} {r}\n" for (a, w, k, r) in cs) + "end\n"
     p = subprocess.run([exe], input=inp, stdout=subprocess.PIPE, stderr=subprocess.PIPE, text=True, timeout=timeout)
     return p.returncode, p.stdout.splitlines(), p.stderr.splitlines()
+
+
+def run_arm_conc(exe, times, threads, k, delay_us, timeout=60):
+    """one lifetime in which k matching calls arrive from `threads` threads released together"""
+    inp = f"{times}\nT {threads} {k} {delay_us}\nend\n"
+    p = subprocess.run([exe], input=inp, stdout=subprocess.PIPE, stderr=subprocess.PIPE, text=True, timeout=timeout)
+    return p.returncode, p.stdout.splitlines(), p.stderr.splitlines()
+
+
+def model_conc(opts, times, threads, k, out, err):
+    """C06 under concurrent callers: exactly min(k, N) calls are admitted, the others panic at the
+    call, and scope exit panics iff k != N, naming both numbers"""
+    if not out or out[0] != "INSTALLED":
+        return ("install-failed", f"stdout {out[:3]} stderr {err[:3]}")
+    m = re.match(r"CONC ok=(\d+) panic=(\d+)", out[1] if len(out) > 1 else "")
+    if not m:
+        return ("crash-under-concurrent-callers", f"no CONC line: stdout {out[-3:]} stderr {err[-3:]}")
+    ok, bad = int(m.group(1)), int(m.group(2))
+    want_ok = min(k, times)
+    if ok != want_ok or bad != k - want_ok:
+        return ("concurrent-admission-wrong", f"{k} matching calls from {threads} threads against times {times}: {ok} returned normally and {bad} panicked; exactly {want_ok} must return and {k - want_ok} must panic")
+    if len(out) < 4 or out[2] != "EXIT":
+        return ("protocol", f"stdout {out}")
+    dropline = out[3]
+    panics = [l[6:] for l in err if l.startswith("PANIC ")]
+    if k != times:
+        if dropline != "DROP-PANIC":
+            return ("exit-verification-missed/concurrent", f"{k} matching calls from {threads} threads against times {times}, but scope exit did not panic")
+        # stderr order: the panics of the refused calls, then the one of scope exit, then the
+        # cross-ABI refusal at the very end
+        msg = panics[bad] if bad < len(panics) else ""
+        nums = re.findall(r"\d+", msg.split("##")[0])
+        if str(times) not in nums or str(k) not in nums:
+            return ("exit-count-wrong/concurrent", f"{k} matching calls from {threads} threads against times {times}; exit panic says {msg.split('##')[0]!r}")
+    elif dropline != "DROPPED":
+        return ("exit-verification-false-alarm/concurrent", f"exactly {times} matching calls from {threads} threads, yet scope exit gave {dropline!r}: {panics[bad:bad + 1]}")
+    return None
 
 
 def _model_block(opts, times, calls, rc, out, err, unwinds, li, pi, panics, ex, last):
@@ -699,6 +772,39 @@ def cmd_c08(out_path, prop="C08"):
         except Exception as e:  # noqa
             rec.frozen = False
             rec.inconclusive.append(f"arm {m['idx']}: harness error {type(e).__name__}: {e}")
+        if prop == "C06" and o["times"] and "case" not in failure:
+            # the same arm under concurrent callers
+            cfail = {}
+
+            @seed(SEED * 1000 + 500 + m["idx"])
+            @settings(max_examples=scale(16, 400), database=None, deadline=None, derandomize=False, suppress_health_check=list(HealthCheck), phases=[Phase.generate, Phase.shrink])
+            @given(times=st.sampled_from([1, 2, 3, 0, 5]), threads=st.integers(2, 8), extra=st.sampled_from([1, 2, 0, -1, 3]), delay=st.sampled_from([1500, 300, 0]))
+            def prop_conc(times, threads, extra, delay):
+                k = max(0, times + extra)
+                if not unwinds:
+                    k = min(k, times)  # an over-budget call would abort the process
+                rc, out, err = run_arm_conc(exe, times, threads, k, delay)
+                verdict = model_conc(o, times, threads, k, out, err)
+                rec.eval(lambda: {"arm": m["idx"], "options": label, "concurrent": {"times": times, "threads": threads, "calls": k, "delay_us": delay}, "stdout": out[:4]})
+                rec.cls(f"concurrent/{label}")
+                if k >= 2:
+                    rec.nontriv([m["idx"], "conc", times, threads, k, delay])
+                if verdict is not None:
+                    msg = rec.fail(f"{prop}/{verdict[0]}/{label}", f"arm {m['idx']} (macros.rs line {m['line']}, {label}): {verdict[1]}")
+                    if msg:
+                        rec.frozen = True
+                        cfail["case"] = {"arm": m["idx"], "line": m["line"], "options": label, "concurrent": [times, threads, k, delay]}
+                        cfail["msg"] = msg
+                        raise AssertionError(msg)
+
+            try:
+                prop_conc()
+            except AssertionError:
+                rec.frozen = False
+                rec.violation(cfail["msg"].split("]")[0][1:], cfail["msg"], {"ArmCase": cfail["case"]})
+            except Exception as e:  # noqa
+                rec.frozen = False
+                rec.inconclusive.append(f"arm {m['idx']} (concurrent): harness error {type(e).__name__}: {e}")
     rec.exhaustive_parts.append(f"arms: all {len(arms)} arms of macro_rules! fake in the working tree ({len(bins)} instantiated and compiled)")
     return rec.finish(out_path)
 
@@ -885,6 +991,18 @@ def cmd_replay(path):
         return 2
     if case.get("compile_only"):
         print("replay: arm compiles now; property holds on this case")
+        return 0
+    if case.get("concurrent"):
+        times, threads, k, delay = case["concurrent"]
+        # a race may need several attempts to show again; one failing attempt is a reproduction
+        for attempt in range(20):
+            rc, out, err = run_arm_conc(res[name]["exe"], times, threads, k, delay)
+            verdict = model_conc(opts, times, threads, k, out, err)
+            if verdict is not None:
+                print("replay:", verdict, f"(attempt {attempt + 1})")
+                print(f"VIOLATION property={prop} replay={path}")
+                return 1
+        print("replay: property holds on this case (20 attempts)")
         return 0
     calls = [tuple(c) for c in case["calls"]]
     more = [(t, [tuple(c) for c in cs]) for (t, cs) in case.get("more", [])]
